@@ -14,6 +14,10 @@ def handle : List String → Option String
   | ["c14.tophat", h, d] => do some (showRats (tophat (← h.toNat?) (← parseList? parseRat? d)))
   | ["c14.mor", h, d] => do some (showRats (mor (← h.toNat?) (← parseList? parseRat? d)))
   | ["c14.imor", h, k, d] => do some (showRats (imorIter (← h.toNat?) (← parseList? parseRat? d) (← k.toNat?)))
+  | ["c14.erode2d", hr, hc, m] => do some (showMat (erode2d (← hr.toNat?) (← hc.toNat?) (← parseMat? m)))
+  | ["c14.dilate2d", hr, hc, m] => do some (showMat (dilate2d (← hr.toNat?) (← hc.toNat?) (← parseMat? m)))
+  | ["c14.avgopening2d", hr, hc, m] => do some (showMat (avgOpening2d (← hr.toNat?) (← hc.toNat?) (← parseMat? m)))
+  | ["c14.transpose", m] => do some (showMat (transpose (← parseMat? m)))
   | ["c14.tophat2d", hr, hc, m] => do some (showMat (opening2d (← hr.toNat?) (← hc.toNat?) (← parseMat? m)))
   | ["c14.mor2d", hr, hc, m] => do some (showMat (mor2d (← hr.toNat?) (← hc.toNat?) (← parseMat? m)))
   | ["c14.imor2d", hr, hc, k, m] => do
